@@ -26,7 +26,7 @@ import engine
 from engine import Op, set_mode
 
 PROP = "C17"
-LEAN_MODULES = ["IsoDT.Props.C17"]
+LEAN_MODULES = ["IsoDT.Props.C17", "IsoDT.Props.C17b"]
 REQUIRED_THEOREMS = [
     "IsoDT.Props.C17.C17_strftime", "IsoDT.Props.C17.C17_unix", "IsoDT.Props.C17.C17_strptime",
     "IsoDT.Props.C17.C17_defaults", "IsoDT.Props.C17.C17_unsupported",
